@@ -18,10 +18,12 @@ export EGSIM_VERIF_DIR=$mx
 declare -A clean
 for d in /verif/seeded/*/; do
   id=$(basename "$d"); [ -f "$d/replay.json" ] || continue
+  if [ -n "${ONLY_RE:-}" ] && ! [[ "$id" =~ $ONLY_RE ]]; then continue; fi
   (cd $mx/sim && ./target/release/egsim replay "$d/replay.json" >/dev/null 2>&1); clean[$id]=$?
 done
 for d in /verif/seeded/*/; do
   id=$(basename "$d"); [ -f "$d/replay.json" ] || continue
+  if [ -n "${ONLY_RE:-}" ] && ! [[ "$id" =~ $ONLY_RE ]]; then continue; fi
   git -C $mx/repo apply "$d/patch.diff" || { echo "$id: cannot apply"; continue; }
   if (cd $mx/sim && cargo build --release --offline >/dev/null 2>&1); then
     (cd $mx/sim && ./target/release/egsim replay "$d/replay.json" >/dev/null 2>&1); rc=$?
